@@ -219,9 +219,87 @@ def check_grow(chk):
                        'pages clears %s bytes: the byte counts are computed in 32 bits and wrap to 0 - realloc(data, 0) releases the memory, the '
                        'existing contents are lost and later accesses use freed storage' % (asked, cleared), site + ':byte-size')
     chk.expect(n_ok >= 1 and n_fail >= 1, 'R05.3', 'paths', 'wasmMemoryGrow has %d success and %d failure paths' % (n_ok, n_fail), site)
+    # second decision: wasmMemoryGrow evaluated on concrete (pages, maximum, delta) triples around every boundary of the page arithmetic
+    # (0, 1, the 16-bit and 32-bit limits, the declared maximum) against the specification
+    bad, ncase = concrete_grow_family(htu, chk.tier)
+    chk.expect(not bad, 'R05.3', 'grow:concrete-family', 'memory.grow: %s' % bad, site + ':concrete',
+               detail_ok='%d (pages, maximum, delta, shared) cases agree with the specification: result, page count, byte size, bytes requested and cleared' % ncase)
     chk.sample(dict(rule='R05.3', paths=[dict(cond=p.cond_text(), ret=repr(p.ret),
                                              events=[e[0] + (':' + str(e[1][1]) if e[0] in ('read', 'write') else '') for e in p.events])
                                         for p in paths]))
+
+
+def concrete_grow_family(htu, tier):
+    from .c12 import lin
+    """-> (first discrepancy or None, number of cases)"""
+    FAIL = 0xFFFFFFFF
+    P = [0, 1, 2, 3, 65534, 65535, 65536]
+    D = [0, 1, 2, 65533, 65534, 65535, 65536, 65537, 0x7FFFFFFF, 0x80000000, 0xFFFF0000, 0xFFFF0001, 0xFFFFFFFE, 0xFFFFFFFF]
+    M = [0, 1, 2, 3, 65535, 65536]
+    if tier != 'thorough':
+        P, M = [0, 1, 3, 65535, 65536], [0, 3, 65535, 65536]
+        D = [0, 1, 2, 65535, 65536, 0x80000000, 0xFFFF0001, 0xFFFFFFFF]
+    n = 0
+    rr = unk('realloc-result')
+    for shared in (0, 1):
+        for pg in P:
+            for mx in M:
+                if pg > mx:
+                    continue
+                for dl in D:
+                    cell = {}
+
+                    def mk(it, pg=pg, mx=mx, shared=shared):
+                        rec = runtime.Traced(it, 'mem', {'data': unk('data', 'unsigned char *'), 'size': pg * 65536, 'pages': pg, 'maxPages': mx,
+                                                         'shared': shared, 'futex': unk('futex'), 'futexFree': unk('futexFree'), 'mutex': {'_opaque': 1}})
+                        cell['mem'] = rec
+                        return [Ptr({'v': rec}, 'v'), dl], {}
+                    try:
+                        paths = [p for p in runtime.summarize(htu, 'wasmMemoryGrow', mk) if not p.aborted]
+                    except pe.PEError as e:
+                        raise AnalysisBroken('wasmMemoryGrow(pages=%d, max=%d, delta=%d): %s' % (pg, mx, dl, e))
+                    # realloc may fail: the path on which it succeeds is the one to compare (a failing one must return -1 unchanged)
+                    succ = [p for p in paths if p.ret != FAIL]
+                    want_ok = pg + dl <= mx and pg + dl <= 65536
+                    n += 1
+                    what = 'grow of a%s memory of %d pages (maximum %d) by %d' % (' shared' if shared else '', pg, mx, dl)
+                    if not want_ok:
+                        if succ:
+                            return '%s returns %r; the specification requires -1 (the new size %d exceeds %s)' % (
+                                what, succ[0].ret, pg + dl, 'the maximum' if pg + dl > mx else 'the 65536-page limit'), n
+                        for p in paths:
+                            w = [e for e in p.events if e[0] == 'write' and e[1][1] in ('pages', 'size', 'data')]
+                            if w:
+                                return '%s fails but has stored %r' % (what, [e[1][1:] for e in w]), n
+                        continue
+                    if len(succ) != 1:
+                        return '%s has %d successful paths; the specification requires success (old size %d)' % (what, len(succ), pg), n
+                    p = succ[0]
+                    st = {e[1][1]: e[1][2] for e in p.events if e[0] == 'write' and e[1][1] in ('pages', 'size', 'data')}
+                    if p.ret != pg:
+                        return '%s returns %r, specification: the old size %d' % (what, p.ret, pg), n
+                    if dl == 0 and not st:
+                        continue        # nothing to do
+                    if st.get('pages', pg) != pg + dl or (('size' in st) and st['size'] != (pg + dl) * 65536):
+                        return '%s leaves pages = %r, size = %r; specification: %d pages, %d bytes' % (what, st.get('pages'), st.get('size'), pg + dl, (pg + dl) * 65536), n
+                    re_ev = [e for e in p.events if e[0] == 'realloc']
+                    ms = [e for e in p.events if e[0] == 'memset']
+                    if shared:
+                        if re_ev or 'data' in st:
+                            return '%s reallocates / moves the storage other threads are using' % what, n
+                        continue
+                    if len(re_ev) != 1 or re_ev[0][1][1] != (pg + dl) * 65536:
+                        return '%s requests %r bytes from realloc; %d pages need %d bytes' % (what, [e[1][1] for e in re_ev], pg + dl, (pg + dl) * 65536), n
+                    if dl:
+                        okm = False
+                        if len(ms) == 1:
+                            f = lin(ms[0][1][0])
+                            okm = f is not None and {k: c for k, c in f.items() if k != 1} == {rr: 1} and f.get(1, 0) == pg * 65536 and \
+                                ms[0][1][1] == 0 and ms[0][1][2] == dl * 65536
+                        if not okm:
+                            return '%s clears %r; the new pages are the %d bytes from offset %d of the reallocated block' % (
+                                what, [e[1] for e in ms], dl * 65536, pg * 65536), n
+    return None, n
 
 
 def check_bulk(chk, it, tabs, configs):
@@ -478,7 +556,7 @@ def run(chk):
         '(guards, stores, realloc/memset order); bulk operations are checked for operand roles and the libc primitive reached. '
         'Bounds are not checked (the property is stated for in-bounds accesses; w2c2 emits no bounds checks).')
     chk.assumptions = ['host memcpy/memmove/memset semantics', 'little-endian configuration here; the big-endian one is C19',
-                       'page arithmetic for all 2^32 deltas is decided only as presence/position of the guards']
+                       'page arithmetic: the guards are decided structurally for all operands, the arithmetic itself (result, page count, byte counts requested and cleared) on a grid of (pages, maximum, delta) triples around every 16-bit/32-bit boundary']
     tus = emit.translator_tus(('c.c', 'opcode.c', 'instruction.c'), chk=chk)
     it = emit.make_interp(tus)
     vts = c01.value_types(it)
